@@ -2,6 +2,7 @@ import FxVerif.Model.C16
 import FxVerif.Model.C16Sem
 import FxVerif.Model.C16Store
 import FxVerif.Model.C16Tx
+import FxVerif.Model.C16Blk
 import FxVerif.Model.C16Dep
 import FxVerif.Model.Util
 /-! line-protocol driver for the C16 model: `lake env lean --run Driver/C16.lean < ops.txt`
@@ -18,6 +19,8 @@ ops:
 * `hcall <type> <msg> <gov-hex> <auth-hex> <chain> <govOk> <non-empty list fields>`   the method serving the message on a value of that concrete type, called directly
 * `tx|authz|gprop <msg> <gov-hex> <auth-hex> <signer/grantee bytes hex or -> <payloadOk> <chain> <govOk> <lists>`   the message inside a signed transaction / a MsgExec / a passed proposal
 * `blk <gov-hex> t <msg> <auth-hex> <signer bytes hex> <payloadOk> <chain> <govOk> <lists> t …`   several signed transactions in ONE block (FinalizeBlock + Commit) → the stage of each
+* `blkn <gov-hex> T <key-hex,…|-> (p <msg> <auth-hex> <payloadOk> <chain> <govOk> <lists> | x <grantee-hex> <msg> <auth-hex> <payloadOk> <chain> <govOk> <lists> | s <signer-hex> <ok|err>)… T …`
+    a block of MULTI-MESSAGE, multi-signer transactions (privileged messages, MsgExec-wrapped ones, bank sends) → per transaction `rejected:basic | rejected:ante | failed-at:<message index> | ok`
 * `dcall <type> <method> <gov-hex> <auth-hex>`         a dependency handler (SDK / IBC / ethermint) called directly
 * `casreset`                                        empty scratch stores
 * `cas <gov-hex> <auth-hex> <space:key:old:new>…`   one MsgUpdateStore through its branch
@@ -89,6 +92,64 @@ def parseBlock (st : St) : List String → Option (Str → List (BlockTx Nat))
           payloadOk := pOk == "1", signer := who } :: more gov
     | _, _, _, _ => none
   | _ => none
+
+/-- a privileged message of a `blkn` line -/
+def mkPriv (st : St) (msg authH pOk chain govOk lists : String) : Option (Str → PrivMsg Nat) :=
+  match routeOf C16Sem.services C16Sem.registrations msg, unhexS authH with
+  | some (T, m), some auth =>
+    some fun gov =>
+      { env := mkEnv st.cfg gov (if lists == "-" then [] else lists.splitOn ",") (govOk == "1"),
+        W := world (C16Sem.routes.contains chain), T := T, m := m, msg := msg, auth := auth, payloadOk := pOk == "1" }
+  | _, _ => none
+
+/-- the messages of one transaction of a `blkn` line -/
+def parseMsgsN (st : St) : List String → Option (Str → List (BMsg Nat))
+  | [] => some fun _ => []
+  | "p" :: msg :: authH :: pOk :: chain :: govOk :: lists :: rest =>
+    match mkPriv st msg authH pOk chain govOk lists, parseMsgsN st rest with
+    | some p, some more => some fun gov => .priv (p gov) :: more gov
+    | _, _ => none
+  | "x" :: grH :: msg :: authH :: pOk :: chain :: govOk :: lists :: rest =>
+    match unhex grH, mkPriv st msg authH pOk chain govOk lists, parseMsgsN st rest with
+    | some gr, some p, some more => some fun gov => .exec gr (p gov) :: more gov
+    | _, _, _ => none
+  | "s" :: whoH :: res :: rest =>
+    match unhex whoH, parseMsgsN st rest with
+    | some who, some more =>
+      -- a bank send: does not touch the state the privileged handlers write; succeeds or fails (insufficient funds)
+      some fun gov => .plain who (fun s => (if res == "ok" then .ok else .err, s)) :: more gov
+    | _, _ => none
+  | _ => none
+
+/-- split the words of a `blkn` line at the `T` markers -/
+def splitT : List String → List String → List (List String) → List (List String)
+  | [], cur, acc => (acc ++ [cur.reverse])
+  | "T" :: ws, cur, acc => splitT ws [] (acc ++ [cur.reverse])
+  | w :: ws, cur, acc => splitT ws (w :: cur) acc
+
+def parseTxN (st : St) : List String → Option (Str → BlockTxN Nat)
+  | keysW :: ws =>
+    match (if keysW == "-" then some [] else (keysW.splitOn ",").mapM unhex), parseMsgsN st ws with
+    | some keys, some mk => some fun gov => { msgs := mk gov, keys := keys }
+    | _, _ => none
+  | [] => none
+
+def showTxN (t : BlockTxN Nat) (r : TxStage × (Res × Nat)) (s : Nat) : String :=
+  match r with
+  | (.basic, _) => "rejected:basic"
+  | (.ante, _) => "rejected:ante"
+  | (.msgs, (.ok, _)) => "ok"
+  | (_, _) =>
+    match firstFail (t.msgs.map (·.handler prog C16Sem.msgInfos)) s 0 with
+    | some i => "failed-at:" ++ toString i
+    | none => "failed"
+
+/-- run the transactions in order, printing each -/
+def runBlockN : List (BlockTxN Nat) → Nat → List String
+  | [], _ => []
+  | t :: ts, s =>
+    let r := txRunN prog C16Sem.msgInfos t s
+    showTxN t r s :: runBlockN ts r.2.2
 
 def step (st : St) (line : String) : St × String :=
   match words line with
@@ -166,6 +227,10 @@ def step (st : St) (line : String) : St × String :=
       let fs := ms.map fun (a, es) => updMsg st gov a es
       let (r, S') := runProposalWith C16Sem.proposalExec fs st.stores
       ({ st with stores := S' }, (if r == .ok then "passed " else "failed ") ++ showStores S')
+    | _, _ => (st, "bad-op")
+  | "blkn" :: govH :: "T" :: ws =>
+    match unhexS govH, (splitT ws [] []).mapM (parseTxN st) with
+    | some gov, some mks => (st, " ".intercalate (runBlockN (mks.map (· gov)) 0))
     | _, _ => (st, "bad-op")
   | "blk" :: govH :: ws =>
     -- a whole block: `t <msg> <auth-hex> <signer bytes hex> <payloadOk> <chain> <govOk> <lists>` per transaction
